@@ -523,7 +523,9 @@ fn shard_pool_scenarios(out: &mut NdjsonWriter, seed: u64, n: u64) {
         // distance from the stable height (tip - 100): Verify with the lookahead cut short / exactly 10 / the empty
         // range when they coincide / ChainTip one above; the shard metadata puts ChainTip on the last shard
         let ms = r.scanned().iter().copied().max().unwrap_or(0) as u32;
-        let want: i64 = [-1i64, 0, 1, 5, 9, 10, 11, 30][(i % 8) as usize];   // stable height - highest scanned height
+        // stable height - highest scanned height; the `lowscan` histories (every pool's latest shard ends above the scanned
+        // blocks) run through the empty Verify range, the lookahead cut short, exactly 10 and ChainTip one above
+        let want: i64 = if lowscan { [0i64, 5, 10, -1][((i / 4) % 4) as usize] } else { [-1i64, 0, 1, 5, 9, 10, 11, 30][(i % 8) as usize] };
         let top = r.w.rel(r.chain.top()) as i64;
         let need = (ms as i64 + want + 100 - top).max(0) as u32;
         r.empties(need);
